@@ -16,8 +16,11 @@ RULE = ('abstract records of the seven table types are drawn field by field from
         '(Spec.Sdr, tables 43-1/-2/-3/-7/-8/-9/-12) and parsed by the real SdrCommon.from_data as list / tuple / '
         'bytes / array; every attribute is compared with the specification\'s view (property) and with the Lean model '
         '(tie).  Directed streams: one minimal witness per split field, every id-string encoding x every length '
-        '0..16 (+ up to 30 bytes) on every record type that has one, all 256 type bytes (dispatch), every truncation '
-        'of sample records (error kinds, tie only).  A case is distinct by its encoded bytes and non-trivial when '
+        '0..16 (+ up to 30 bytes) on every record type that has one (BCD plus digits drawn from all sixteen codes of '
+        'section 43.15, biased to Dh / Eh / Fh; directed strings with those codes in the high and in the low nibble on '
+        'all five record types), every channel nibble 0..15 x low nibbles 0, 1, 5, 10, 15 of byte 9 of the FRU device '
+        'locator (reserved bits) and of byte 8 of the MC confirmation record (device revision), all 256 type bytes '
+        '(dispatch), every truncation of sample records (error kinds, tie only).  A case is distinct by its encoded bytes and non-trivial when '
         'the record has a body.')
 ASSUMPTIONS = [
     'GENERATED every run from the AST of the working tree (harness/translate/sdrexpr.py -> Gen/SdrExpr.lean, one Lean '
@@ -38,14 +41,27 @@ ASSUMPTIONS = [
     'the dispatch table and the BCD map are regenerated (Gen/SdrTables.lean)',
     'in the generated definitions a popped value / buffer byte is a Nat (ByteBuffer yields 0..255 per byte) and the '
     'arguments of _convert_complement are Nat: Python int semantics of & | ^ << >> on non-negative ints',
-    'the specification covers the attributes named by the tables; `capabilities` of the full sensor record, '
-    '`global_initialization` of the MC locator and the key attributes of OEM records are compared with the model only',
+    'the specification covers the attributes the property enumerates (record id, key, entity, masks, units, '
+    'linearisation, thresholds, hysteresis, id string, M / B / accuracy / exponents) as the tables define them; attributes '
+    'outside that list are compared with the MODEL only, i.e. the check says nothing about their meaning: the decoded '
+    '`capabilities` strings of the full sensor record (byte 12; the audit noted that the hysteresis / threshold-access '
+    'constants of _decode_capabilities look swapped against table 43-1), `global_initialization` of the MC device '
+    'locator (a constant 0 in the library, byte 8 [3:0] is not read) and owner_id / owner_lun / number of OEM records '
+    '(the library reads the three manufacturer-id bytes of table 43-12 under the names of a sensor key)',
+    'table 43-9 byte 8 is part of the record key: channel number [7:4] AND device revision [3:0]; the view therefore '
+    'has `device_revision` next to `channel_number` (an attribute the repaired library sets); table 43-7 byte 9 [3:0] is '
+    'reserved: generated with every value, a reader must ignore it',
+    'BCD plus of an SDR id string follows IPMI v2.0 section 43.15 (all sixteen codes: Ah space, Bh -, Ch ., Dh :, Eh ,, '
+    'Fh _), not the FRU Information Storage Definition (Dh-Fh reserved): my reading of the two documents; the table is '
+    'pinned in Spec.Sdr.bcdChar / bcdPlusSdr and compared with the generated one (bcd_plus_sdr_table)',
     'id-string length is the number of data bytes ([4:0] of the type/length byte, bit 5 reserved = 0); a 6-bit string '
     'of 4k+3 characters reads back with one trailing space (three bytes always hold four characters)',
-    'the six deviations of the ORIGINAL pinned source (repaired in /repo since) stay in the model as Variant flags: '
-    '*_counterexample theorems about the frozen asShipped variant are documentation; the generated expressions are '
-    'equated with Variant.intended; the run still probes the real code with one witness per flag, so a returning '
-    'defect is reported with a concrete input while the gen_* theorems stop building',
+    'the eight deviations of the ORIGINAL pinned source stay in the model as Variant flags (accuracy shift, rate unit, '
+    'modifier unit, id-string type code, BCD+ on arrays, 6-bit partial group, FRU BCD table used for SDR id strings, raw '
+    'byte as channel number of the FRU device locator / MC confirmation record): *_counterexample theorems are about the '
+    'frozen variants; the generated expressions and tables are equated with Variant.intended (gen_*, '
+    'bcd_plus_sdr_table); the run probes the real code with one witness per flag, so a present / returning defect is '
+    'reported with a concrete input while the gen_* theorems stop building',
 ]
 TRUSTED = ['harness/translate/sdr.py', 'harness/translate/sdrexpr.py', 'harness/props/c16.py', 'harness/sdr_common.py']
 
@@ -65,7 +81,10 @@ CAP_CODE = {'ignore_sensor': 0x80, 'auto_rearm': 0x40,
 
 # signatures of the deviations carried as Variant flags (order = flag order of the driver)
 FLAG_SIG = ['C16:full:accuracy', 'C16:full:rate_unit', 'C16:full:modifier_unit',
-            'C16:idstring:type-code', 'C16:idstring:bcdplus', 'C16:idstring:6bit-partial-group']
+            'C16:idstring:type-code', 'C16:idstring:bcdplus', 'C16:idstring:6bit-partial-group',
+            'C16:idstring:bcdplus-sdr-codes', 'C16:fru-locator:channel_number + C16:mc-confirmation:channel_number']
+NFLAGS = len(FLAG_SIG)
+IDEAL = '0' * NFLAGS
 
 _tab = None
 
@@ -160,6 +179,18 @@ def _probe_full(units1=0, b_acc=0, acc_exp=0, idbytes=(0xC1, 0x41)):
     return [0x01, 0x00, 0x51, 0x01, len(rest)] + rest
 
 
+def _probe_fru(ch_byte=0x70):
+    """FRU device locator, table 43-7, written out by hand; byte 9 = ch_byte."""
+    rest = [0x20, 0x01, 0x80, ch_byte, 0x00, 0x10, 0x02, 0xc2, 0x61, 0x00, 0xC1, 0x46]
+    return [0x02, 0x00, 0x51, 0x11, len(rest)] + rest
+
+
+def _probe_conf(ch_byte=0x25):
+    """MC confirmation record, table 43-9, written out by hand; byte 8 = ch_byte."""
+    rest = [0x20, 0x00, ch_byte, 0x02, 0x01, 0x51, 0x4a, 0xc1, 0x02, 0x06, 0x80] + [0] * 16
+    return [0x45, 0x00, 0x51, 0x13, len(rest)] + rest
+
+
 def probe():
     """Which Variant flags does the working tree show?  list of 0 (intended) / 1 (as shipped) / None."""
     def get(data, name):
@@ -178,6 +209,11 @@ def probe():
     decide(get(_probe_full(), 'device_id_string_type'), ('ok', 3), ('ok', 12))
     decide(get(_probe_full(idbytes=(0x41, 0x12)), 'device_id_string'), ('ok', '12'), ('err', 'AttributeError'))
     decide(get(_probe_full(idbytes=(0x81, 0x21)), 'device_id_string'), ('ok', 'A'), ('err', 'IndexError'))
+    # BCD plus "1:" (nibbles 1h, Dh): the sixteen codes of section 43.15 vs the 13-entry FRU table
+    decide(get(_probe_full(idbytes=(0x41, 0x1D)), 'device_id_string'), ('ok', '1:'), ('err', 'ValueError'))
+    # channel 7 in byte 9 [7:4] of the FRU device locator; channel 2 / device revision 5 in byte 8 of the confirmation record
+    decide((get(_probe_fru(0x70), 'channel_number'), get(_probe_conf(0x25), 'channel_number')),
+           (('ok', 7), ('ok', 2)), (('ok', 112), ('ok', 37)))
     return out, raw
 
 
@@ -202,7 +238,7 @@ def _s(rng, bits):
     return rng.randrange(lo, hi + 1)
 
 
-BCD_DIGITS = 13
+BCD_DIGITS = 16                 # section 43.15: all sixteen codes are characters of an SDR id string
 
 
 def gen_id(rng, enc=None, n=None):
@@ -211,7 +247,7 @@ def gen_id(rng, enc=None, n=None):
         n = rng.randrange(0, 17) if rng.random() < 0.85 else rng.randrange(17, 31)
     if enc == 'b':
         n -= n % 2                      # two digits per byte
-        vals = [rng.randrange(BCD_DIGITS) for _ in range(n)]
+        vals = [rng.choice((13, 14, 15, 10, 11, 12)) if rng.random() < 0.35 else rng.randrange(BCD_DIGITS) for _ in range(n)]
     elif enc == 's':
         vals = [_below(rng, 64) for _ in range(n)]
     elif enc == 'a':
@@ -253,8 +289,9 @@ def gen_event(rng, ids=None):
     return 'spec event %s %s' % (' '.join(map(str, v)), ids or gen_id(rng)), None
 
 
-def gen_fru(rng, ids=None):
-    v = [_u(rng, 16), rng.choice([0x51, _u(rng, 8)]), _u(rng, 7), _u(rng, 8), _u(rng, 8), _u(rng, 8), _u(rng, 8),
+def gen_fru(rng, ids=None, ch=None, chlow=None):
+    v = [_u(rng, 16), rng.choice([0x51, _u(rng, 8)]), _u(rng, 7), _u(rng, 8), _u(rng, 8),
+         _below(rng, 16) if ch is None else ch, _below(rng, 16) if chlow is None else chlow, _u(rng, 8),
          _u(rng, 8), _u(rng, 8), _u(rng, 8), _u(rng, 8)]
     return 'spec fru %s %s' % (' '.join(map(str, v)), ids or gen_id(rng)), None
 
@@ -265,8 +302,9 @@ def gen_mc(rng, ids=None):
     return 'spec mc %s %s' % (' '.join(map(str, v)), ids or gen_id(rng)), None
 
 
-def gen_conf(rng):
-    v = [_u(rng, 16), rng.choice([0x51, _u(rng, 8)]), _u(rng, 7), _u(rng, 8), _u(rng, 8), _u(rng, 8), _u(rng, 8),
+def gen_conf(rng, ch=None, rev=None):
+    v = [_u(rng, 16), rng.choice([0x51, _u(rng, 8)]), _u(rng, 7), _u(rng, 8),
+         _below(rng, 16) if ch is None else ch, _below(rng, 16) if rev is None else rev, _u(rng, 8), _u(rng, 8),
          _u(rng, 8), _u(rng, 20), _u(rng, 16)]
     guid = [_below(rng, 256) for _ in range(16)]
     return 'spec conf %s %s' % (' '.join(map(str, v)), ','.join(map(str, guid))), None
@@ -332,6 +370,8 @@ class _Run(object):
         if real_err is not None:
             if id_enc == 'b' and real_err == 'AttributeError':
                 return 'C16:idstring:bcdplus'
+            if id_enc == 'b' and real_err in ('ValueError', 'IndexError'):
+                return 'C16:idstring:bcdplus-sdr-codes'
             if id_enc == 's' and real_err == 'IndexError':
                 return 'C16:idstring:6bit-partial-group'
             return 'C16:%s:raises:%s' % (short, real_err)
@@ -354,7 +394,7 @@ class _Run(object):
             _, hx, kind, fields = (ans.split(' ', 3) + [''])[:4]
             good.append((line, hx, kind, fields))
         models = self.drv.ask_many(['parse %s %s' % (self.flagstr, hx) for _, hx, _, _ in good])
-        ideals = self.drv.ask_many(['parse 000000 %s' % hx for _, hx, _, _ in good])
+        ideals = self.drv.ask_many(['parse %s %s' % (IDEAL, hx) for _, hx, _, _ in good])
         for i, ((line, hx, kind, fields), model, ideal) in enumerate(zip(good, models, ideals)):
             how = how_cycle[i % len(how_cycle)]
             data = list(lean.unhex(hx))
@@ -449,6 +489,19 @@ def _witnesses(run, rng):
         f = dict(base)
         lines.append(gen_full(rng, ids=ids, **f)[0])
     run.judge('witness', lines, how_cycle=('array',))
+    # BCD plus with the codes Dh ':', Eh ',', Fh '_' (section 43.15) in the high and in the low nibble, on every
+    # record type that has an id string
+    lines = []
+    for name, g in sorted(GEN_WITH_ID.items()):
+        for ids in ('b:1,13', 'b:1,2,13,3,0,14,5,15', 'b:13,0,14,0,15,0', 'b:15,15'):
+            lines.append(g(rng, ids=ids)[0])
+    run.judge('witness', lines, how_cycle=('array', 'list'))
+    # the channel number is bits [7:4] of byte 9 (FRU device locator; [3:0] reserved) / of byte 8 (MC
+    # confirmation record; [3:0] device revision)
+    lines = [gen_fru(rng, ids='a:70', ch=7, chlow=0)[0], gen_conf(rng, ch=2, rev=5)[0],
+             gen_fru(rng, ids='a:70', ch=0, chlow=9)[0], gen_conf(rng, ch=0, rev=1)[0],
+             gen_fru(rng, ids='a:70', ch=15, chlow=15)[0], gen_conf(rng, ch=15, rev=15)[0]]
+    run.judge('witness', lines, how_cycle=('array',))
 
 
 def run(ctx):
@@ -456,6 +509,7 @@ def run(ctx):
     flags, raw = probe()
     ctx.extra['variant_probed'] = dict(
         (sig, {0: 'intended', 1: 'asShipped', None: 'neither: %r' % (r,)}[f]) for sig, f, r in zip(FLAG_SIG, flags, raw))
+    ctx.extra['sdr_bcd_table_source'] = (_tab or {}).get('sdr_bcd_source')
     run_ = _Run(ctx, drv, [f or 0 for f in flags])
     rng = ctx.rng('c16')
     big = ctx.tier == 'thorough'
@@ -472,6 +526,15 @@ def run(ctx):
             for n in list(range(0, 17)) + [17, 20, 24, 29, 30]:
                 lines.append(g(rng, ids=gen_id(rng, enc, n))[0])
     run_.judge('id-strings', lines)
+
+    # ---- every channel nibble x low nibble (reserved bits of the FRU device locator, device revision of the
+    #      MC confirmation record)
+    lines = []
+    for ch in range(16):
+        for low in (0, 1, 5, 10, 15):
+            lines.append(gen_fru(rng, ch=ch, chlow=low)[0])
+            lines.append(gen_conf(rng, ch=ch, rev=low)[0])
+    run_.judge('channel-nibbles', lines)
 
     # ---- seeded records of every type
     n = 1 if not big else 12
@@ -572,7 +635,7 @@ def replay(ctx, v):
         print('  real code raises %s' % real[1])
     print('  Spec.Sdr : %s %s' % (kind, fields))
     r2.one('replay', case['spec'], data, how, kind, fields, drv.ask('parse %s %s' % (r2.flagstr, hx)),
-           drv.ask('parse 000000 %s' % hx))
+           drv.ask('parse %s %s' % (IDEAL, hx)))
     if case.get('later') and real[0] == 'ok':
         keep = []
         for ln, hw in zip(case['later'], case.get('later_container') or ['list'] * len(case['later'])):
